@@ -28,7 +28,7 @@
 //!            `apply_max_message_size_config`)
 //!     clone  the configured client `Grpc` is cloned and the clone makes the call
 //!     twice  the same client `Grpc` (same service / channel) makes the call twice in a row; both must come out the same
-//!     api2   the other public constructors / accessors: `IntoRequest` / `IntoStreamingRequest`, `Request::new` +
+//!     api2   the other public constructors / accessors: `Grpc::new`, `IntoRequest` / `IntoStreamingRequest`, `Request::new` +
 //!            `metadata_mut`, `Request::map`, `Response::from_parts` / `From<T>` / `map`, `metadata()` + `into_inner()`,
 //!            `Stream::poll_next` (`StreamExt::next`) instead of `Streaming::message`
 //!     hints  the transport bodies give honest `size_hint` / `is_end_stream` hints and, like hyper, stop polling a
@@ -907,7 +907,12 @@ where
     <T::ResponseBody as HttpBody>::Error: Into<Box<dyn std::error::Error + Send + Sync>> + Send,
     T::Future: Send,
 {
-    let mut grpc = tonic::client::Grpc::with_origin(svc, http::Uri::from_static("http://verif.test"));
+    // `api2`: `Grpc::new`, as generated clients do (over a channel the origin comes from its AddOrigin layer)
+    let mut grpc = if case.has("api2") {
+        tonic::client::Grpc::new(svc)
+    } else {
+        tonic::client::Grpc::with_origin(svc, http::Uri::from_static("http://verif.test"))
+    };
     if let Some(e) = encoding_of(case.comp) {
         grpc = grpc.send_compressed(e);
     }
